@@ -15,12 +15,13 @@ def check(ctx):
                 dict(NA=3, NB=2, MaxSteps=8, MaxDup=1, MaxBad=1, Ver=1),
                 dict(NA=1, NB=3, MaxSteps=7, MaxDup=1, MaxBad=2, Ver=0)]
     xc.mc_subpkg(ctx, cfgs)
+    xc.mc_stream(ctx, [(5, "{}"), (7, "{}")])   # transfers whose parts are cut and coalesced by the transport
     xc.trace_extract(ctx, 300 if thorough else 40)
     live(ctx)
     ctx.cov["rule"] = ("MC_SubPkg: every behaviour of a terminal sending up to two sub-packaged messages (packet 1 first, others any order, "
                        "duplicates, impossible numbers 0 and N+1, a plain message) up to MaxSteps frames, each in its own read; C05 invariants "
                        "on the spec; each behaviour replayed on the real extractor. Random sessions (totals to 255, bodies to 1023 bytes, "
-                       "re-segmented) validated by Trace_Extract.")
+                       "re-segmented) validated by Trace_Extract. MC_Stream variants 5 and 7: transfers cut into reads at every pair of positions.")
     ctx.cov["exhaustive"] = True
     ctx.assumptions += ["totals announced consistently by all packets of a transfer; packet bodies non-empty (the property's domain)",
                         "the body of an incomplete part message is not judged (it shares storage with the completed message)"]
